@@ -58,6 +58,13 @@ structure Acc where
   classes : List (String × Nat) := []
   /-- model-branch coverage of the correspondence: (transaction kind, model outcome) → count -/
   cov : List (String × Nat) := []
+  /-- theorem-hypothesis monitor (`Perp.Spec.Monitor`): counters of how many observed deployments / steps lie
+      inside the domain of the capstone theorems, and why the others do not -/
+  hyp : List (String × Nat) := []
+
+def Acc.hypCount (a : Acc) (key : String) : Acc :=
+  let cnt := match a.hyp.find? (fun p => p.1 == key) with | some p => p.2 | none => 0
+  { a with hyp := (key, cnt + 1) :: a.hyp.filter (fun p => p.1 != key) }
 
 def Acc.cover (a : Acc) (key : String) : Acc :=
   let cnt := match a.cov.find? (fun p => p.1 == key) with | some p => p.2 | none => 0
